@@ -33,7 +33,8 @@ EPS = 1.0
 
 def floors(tier):
     q = tier == "quick"
-    return {"c12.served": 20000 if q else 2000000, "c12.justified": 20000 if q else 2000000, "c12.no_duplicate": 20000 if q else 2000000}
+    return {"c12.served": 20000 if q else 2000000, "c12.justified": 20000 if q else 2000000, "c12.no_duplicate": 20000 if q else 2000000,
+            "c12.additionals": 10000 if q else 1000000}
 
 
 def plan(tier, seed):
@@ -140,7 +141,7 @@ def run_scenario(res: Result, seed: int) -> None:
             def snap() -> Dict[Tuple, float]:
                 o: Dict[Tuple, float] = {}
                 for ident, p in probes.items():
-                    rec = zc.cache.get(p)
+                    rec = R.last_seen_copy(zc.cache, p)
                     if rec is not None:
                         o[ident] = rec.created
                 return o
@@ -390,6 +391,54 @@ def analyse(res: Result, sim: simnet.Sim, sc: Dict[str, Any], model: ResponderMo
             cands = [(round(o.just_lo - T0, 1), round(o.just_hi - T0, 1), o.cls, o.why) for o in obligations if o.rec == ident]
             viol("c12.justified", "unjustified_transmission", "%r multicast at +%.1f ms; obligations for it allow %r" % (ident, t - T0, cands[:4]),
                  owed=bool(cands), cls=(cands[0][2] if cands else "none"))
+    # ---- D5: the one-second rule speaks of a record being multicast again, in whatever section.  Sightings are taken from what
+    #      was delivered to the host (its own looped-back multicasts and the peers' responses), not from its cache.
+    seen: Dict[Tuple, List[float]] = {}
+    guard: Dict[int, Tuple[bytes, float, Tuple]] = {}
+    for d in sim.net.deliveries:
+        if d["host"] != "H":
+            continue
+        # a datagram the duplicate guard drops (same bytes, same sender, same socket, less than a second after the previous
+        # one - e.g. the host's own second and third announcement) is not "seen" by the instance
+        g = guard.get(d["fd"])
+        src2 = (d["src"][0], d["src"][1])
+        if g is not None and g[0] == d["data"] and d["t"] - 1000.0 < g[1] and g[2] == src2:
+            continue
+        guard[d["fd"]] = (d["data"], d["t"], src2)
+        dm, _ = wire.try_parse(d["data"], strict=False)
+        if dm is None or not dm.is_response:
+            continue
+        for r in dm.answers + dm.additionals:
+            if r.ttl > 0:
+                seen.setdefault(R.ident_of_wire(r), []).append(d["t"])
+    probe_instants = [T0 + a["t"] for a in arrivals if a.get("probe")]
+    for t, m in tx:
+        if any(abs(t - p) < EPS for p in probe_instants):
+            continue                          # probe replies are excepted
+        if not any(a.get("tc") for a in arrivals):
+            # cross-check of D2 that does not go through the host's cache (for truncated trains the wording is ambiguous about
+            # sightings between the first packet and the release, see the obligations above - they are left to D2)
+            for r in m.answers:
+                ident = R.ident_of_wire(r)
+                # the queries that can have caused this transmission, and for each of them a sighting less than a second
+                # before IT arrived that is still less than a second old now
+                causes = sorted({o.serve_lo for o in obligations if o.rec == ident and o.serve_lo - EPS <= t <= o.just_hi + EPS})
+                if r.ttl <= 0 or not causes:
+                    continue
+                hit = [max([s_ for s_ in seen.get(ident, []) if s_ < a - 1e-6 and a - s_ < 1000.0 - EPS and t < s_ + 1000.0 - EPS] or [None]) for a in causes]
+                if all(h is not None for h in hit):
+                    viol("c12.justified", "record_multicast_again_within_one_second", "%r multicast at +%.1f ms as an answer to the query that arrived at +%.1f ms, "
+                         "%.0f ms after the host saw it multicast (+%.1f ms)" % (ident, t - T0, causes[-1] - T0, t - hit[-1], hit[-1] - T0),
+                         mechanism="answer_section", kind_of_record=ident[0])
+                    break
+        res.mon("c12.additionals")
+        for r in m.additionals:
+            ident = R.ident_of_wire(r)
+            recent = [s_ for s_ in seen.get(ident, []) if s_ < t - 1e-6 and t - s_ < 1000.0 - EPS]
+            if r.ttl > 0 and recent:
+                viol("c12.justified", "record_multicast_again_within_one_second", "%r multicast at +%.1f ms as an additional, %.0f ms after the host saw it multicast" % (
+                    ident, t - T0, t - max(recent)), mechanism="additional_section")
+                break
     gaps = sorted({gap_bucket(arrivals[i + 1]["t"] - arrivals[i]["t"]) for i in range(len(arrivals) - 1)})
     res.cls("scenario", "n=%d" % len(arrivals), ",".join(gaps)[:40], "wait=%d" % sc["start_wait"], "self=%g" % sc["self_delay"], sc["layout"])
 
